@@ -171,6 +171,7 @@ def finish(args, mod, results, problems, nsh, t0, repo):
     prop = args.prop
     counters, viol_counts, finding_counts, observations, classes, notes, exhaustive = {}, {}, {}, {}, {}, {}, {}
     violations, samples = [], []
+    keysets = {}
     digests = set()
     dbc = 0
     cases = 0
@@ -189,6 +190,8 @@ def finish(args, mod, results, problems, nsh, t0, repo):
         for k, v in r.get('exhaustive', {}).items():
             exhaustive.setdefault(k, 0)
             exhaustive[k] += v
+        for k, v in r.get('keysets', {}).items():
+            keysets.setdefault(k, set()).update(v)
 
     # -- attribute to known findings: only OPEN ledger entries of this property can absorb a violation -------------
     ledger = load_ledger()
@@ -268,6 +271,13 @@ def finish(args, mod, results, problems, nsh, t0, repo):
         'inconclusive_reasons': inconclusive,
         'repo_head': head, 'repo_diff': diffhash, 'technique': getattr(mod, 'TECHNIQUE', ''),
     }
+    for k, v in keysets.items():
+        ev['coverage']['distinct ' + k] = len(v)
+        ev['coverage']['sample of ' + k] = sorted(v)[:5]
+    if 'abstract states' in keysets:
+        ev['coverage']['states'] = len(keysets['abstract states'])
+    if 'abstract transitions' in keysets:
+        ev['coverage']['transitions'] = len(keysets['abstract transitions'])
     if getattr(mod, 'EXHAUSTIVE', None) and exhaustive:
         ev['coverage']['exhaustive_subspaces'] = {'description': mod.EXHAUSTIVE.get(args.tier, ''), 'enumerated': exhaustive}
         ev['coverage']['exhaustive'] = False   # the property quantifies over more than the enumerated sub-space
